@@ -6,6 +6,7 @@ import numpy
 import scipy.sparse
 from scipy.spatial.distance import cdist
 from sklearn.metrics.pairwise import euclidean_distances
+from sklearn.utils import check_random_state
 from sklearn.utils.extmath import row_norms
 from ._kmeans_022 import _centers_dense, _centers_sparse, _labels_inertia_skl
 
@@ -509,7 +510,7 @@ def _constraint_association_gain(
     sumi = nover - leftclose.sum()
     if sumi != 0:
         if state is None:
-            state = numpy.random.RandomState()
+            state = check_random_state(None)
 
         def loopf(h, sumi):
             if sumi < 0 and leftclose[h] > 0:
